@@ -215,7 +215,7 @@ def check(op, c, V, st, i):
 class LibPmLayer:
     name = 'libpm'
 
-    def __init__(self, quick=(16, 250), thorough=(64, 1500)):
+    def __init__(self, quick=(16, 250), thorough=(128, 1500)):
         self.quick = quick; self.thorough = thorough
 
     def build(self): build()
